@@ -8,7 +8,7 @@ sys.path.insert(0, "/repo/src"); sys.path.insert(0, ".")
 import OpenSSL, cryptography, structlog, tomli_w  # noqa
 import nauyaca  # noqa
 from sim import fixtures as fx
-for n in fx.SERVER_CERTS + fx.BAD_CERTS + fx.EC_CERTS + fx.CLIENT_CERTS + fx.EXPIRED_CERTS + fx.CLONE_CERTS:
+for n in fx.SERVER_CERTS + fx.BAD_CERTS + fx.EC_CERTS + fx.CLIENT_CERTS + fx.EXPIRED_CERTS + fx.CLONE_CERTS + fx.CA_CERTS:
     assert os.path.exists(fx.crt(n)) and os.path.exists(fx.key(n)), n
     ssl.SSLContext(ssl.PROTOCOL_TLS_SERVER).load_cert_chain(fx.crt(n), fx.key(n))
 print("setup ok: python", sys.version.split()[0], ssl.OPENSSL_VERSION)
